@@ -69,7 +69,10 @@ def conf_one(name, lines, sched, gencfg, d):
             conf.append({"ev": "q", "blocked": e["blocked"], "h": e["h"], "ctab": e["ctab"], "stab": e["stab"], "nsrv": e["nsrv"],
                          "qc2s": e["qc2s"], "qs2c": e["qs2c"], "chdone": e["chdone"], "proj": projs.get(i + 2)})
     if skipped:
-        return {"name": name, "verdict": "skipped", "detail": "a driver step of the model schedule was not executable on the code"}
+        # the prefix up to the step the code could not execute is still checked: if it is explained by the model, the
+        # model allowed a driver step the code refuses right after it
+        while conf and conf[-1]["ev"] == "drv":
+            conf.pop()
     ctrace = base + ".conf.ndjson"
     with open(ctrace, "w") as f:
         for c in conf:
@@ -78,6 +81,9 @@ def conf_one(name, lines, sched, gencfg, d):
                  env={"VERIF_TRACE": ctrace}, workers=1, heap="2g", extra=["-noGenerateSpecTE"], timeout=600)
     st = orch.tlc_stats(r.stdout)[0]
     if "Invariant NotAccepted is violated" in r.stdout:
+        if skipped:
+            return {"name": name, "verdict": "skipped", "n": len(conf), "states": st,
+                    "detail": "the model explains the first %d sync points, then takes a driver step the code refuses" % len(conf)}
         return {"name": name, "verdict": "accepted", "n": len(conf), "states": st}
     m = re.search(r'"MAXL", (\d+), (\d+)', r.stdout)
     if m:
@@ -113,5 +119,5 @@ def check(trace_files, scenarios, tag, limit=0, workers=6):
         out[v] = sum(1 for r in res if r["verdict"] == v)
     out["sync_points"] = sum(r.get("n", 0) for r in res if r["verdict"] == "accepted")
     out["states"] = sum(r.get("states", 0) for r in res)
-    out["rejections"] = [{"name": r["name"], "detail": r.get("detail", "")} for r in res if r["verdict"] in ("rejected", "error")][:10]
+    out["rejections"] = [{"name": r["name"], "detail": r.get("detail", "")} for r in res if r["verdict"] in ("rejected", "error", "skipped")][:10]
     return out
